@@ -182,8 +182,15 @@ def run(ctx):
             ctx.disagree(sig, f"replay mismatch {m['kind']} on {o['expr']!r}",
                          dict(kind="replay", expr=o["expr"], want=m["want"], got=m["got"],
                               how="xp replay on the vector of this expression (bin/check %s)" % prop))
+    tot = None
+    if prop == "C05":
+        # totality of machine construction over character strings and token sequences (three grammars),
+        # and of running whatever was built on a nil context, the mock tree and a failing tree
+        import fam_xgrammar
+        tot = fam_xgrammar.totality(ctx, ctx.tier)
     cov = dict(
-        evaluations=nvec, distinct_nontrivial=len(distinct),
+        totality=tot,
+        evaluations=nvec + (tot["builds"] if tot else 0), distinct_nontrivial=len(distinct),
         rule="vectors = all ASTs of the listed families (XPathSets.tla) plus TLC-sampled deeper ASTs; distinct = expression shapes after erasing literals",
         samples=samples, families=fams, random_vectors=nrand, trace_events=events, repo_expressions=nh,
         exhaustive=True,
@@ -220,6 +227,9 @@ MANIFEST = {
              note="whitespace is inserted only at token boundaries of the XPath token grammar", design="4 C03", technique=XP),
  "C05": dict(text="TLC checks value-xor-error and fault faithfulness on the machine spec with every data-tree callback position failing; the real "
              "machine is run with the k-th callback of the mock tree failing, for every k of every vector, and the trace validator requires the run to end "
-             "at the failing instruction with that error and no value. (Totality of compilation over byte strings: see the lexer family.)",
+             "at the failing instruction with that error and no value. Totality: every character string to a bounded length over 25 character classes "
+             "(incl. invalid UTF-8, unterminated literals, stray characters) and every token sequence enumerated by XPathGrammarGen is fed to all three grammars "
+             "(expr, path_eval, leafref) under a panic trap: machine xor error, the error quotes the expression and marks a split position; every machine built is run on a nil "
+             "context, the mock tree and a failing tree: value xor error, no panic.",
              note="an error whose text still contains the tree's error counts as carrying it (Deref re-wraps FollowLeafRef errors)", design="4 C05", technique=XP),
 }
